@@ -22,11 +22,11 @@ REQUIRED_COUNTERS = ['pickle-roundtrips', 'json-roundtrips', 'manager-roundtrips
 
 
 def bounds(tier):
-    return dict(variables='3-4', roots='1-5', cases=120 if tier == 'quick' else 3000)
+    return dict(variables='3-4', roots='1-5', cases=120 if tier == 'quick' else 3000 * DEEP)
 
 
 def chunks(tier, seed):
-    n = 120 if tier == 'quick' else 3000
+    n = 120 if tier == 'quick' else 3000 * DEEP
     out = []
     for k in range(0, n, 10):
         out.append(('case_roundtrip', [dict(seed=seed * 613 + k + i) for i in range(10)]))
